@@ -56,7 +56,7 @@ def main(argv=None):
     keep = a.keep or bool(os.environ.get('VERIF_KEEP'))
     ws = Workspace(keep=keep)
     ctx = Ctx(ws, tier, seed)
-    ev_path = os.path.join(VERIF, 'evidence', f'{pid}.json')
+    ev_path = os.path.join(os.environ.get('VERIF_EVIDENCE_DIR') or os.path.join(VERIF, 'evidence'), f'{pid}.json')      # VERIF_EVIDENCE_DIR: runs on modified trees (seeded changes) must not overwrite the evidence of the unchanged tree
     os.makedirs(os.path.dirname(ev_path), exist_ok=True)
     rc = 2
     try:
@@ -197,6 +197,10 @@ def write_evidence(path, pid, tier, seed, prop, results, val_ok, val_bad, violat
         'wall_s': round(wall, 1),
         'violations': len(violations),
     }
+    if ev['coverage']['states'] < 1 or ev['coverage']['transitions'] < 1:
+        # nothing was explored (e.g. the translator validation failed): not model-checking evidence
+        ev['level'] = 'other'
+        ev['coverage']['explanation'] = f'no exploration took place in this run (status: {status}); the run is inconclusive (exit 2) and nothing is claimed'
     with open(path + '.tmp', 'w') as f: json.dump(ev, f, indent=1, default=str)
     os.replace(path + '.tmp', path)
 
